@@ -153,6 +153,7 @@ Definition init_sys (n : N) : sys := repeat empty_replica (N.to_nat n).
 
 Inductive sop :=
 | Create (p : N) (x : uid) (t : Z) (sg : N)      (* mutate { ns.Doc{ room_id .. } } at clock t; sg = signature rank *)
+| CreateMany (p : N) (x0 : uid) (t : Z) (sgs : list N)   (* ONE mutation creating rows x0, x0+1, .. (same date), one signature rank each *)
 | Update (p : N) (x : uid) (t : Z) (sg : N)      (* mutate { ns.Doc{ id:x .. } } *)
 | Delete (p : N) (x : uid) (t : Z)               (* delete { ns.Doc{ x } } *)
 | AddRef (p : N) (x y : uid) (t : Z) (sg : N)    (* mutate { ns.Doc{ id:x refs:[{id:y}] } }: reference + re-dated source row *)
@@ -160,7 +161,7 @@ Inductive sop :=
 | Pull (dst src : N) (days : list Z).            (* dst synchronises the room from src; days = what the log comparison selected *)
 
 Definition op_peer (o : sop) : N :=
-  match o with Create p _ _ _ | Update p _ _ _ | Delete p _ _ | AddRef p _ _ _ _ | DelRef p _ _ _ _ => p | Pull d _ _ => d end.
+  match o with Create p _ _ _ | CreateMany p _ _ _ | Update p _ _ _ | Delete p _ _ | AddRef p _ _ _ _ | DelRef p _ _ _ _ => p | Pull d _ _ => d end.
 
 Definition mentions (x : uid) (r : replica) : bool :=
   existsb (fun n => N.eqb (n_id n) x) (nodes r) || existsb (fun t => N.eqb (t_id t) x) (tombs r).
@@ -168,8 +169,19 @@ Definition mentions (x : uid) (r : replica) : bool :=
 (* one step: new system, the flag the harness observes (1 = done / number of rows requested), and
    whether the step leaves the envelope of the theorems: a Create that reuses an id the peer already
    knows (the code draws fresh uids), an Update whose clock is behind the stored version. *)
+(* several creations in one mutation: the rows one after the other; the flag of the envelope is that
+   of the single creations *)
+Fixpoint create_rows (r : replica) (x : uid) (t : Z) (sgs : list N) : replica * bool :=
+  match sgs with
+  | [] => (r, false)
+  | sg :: rest =>
+      let '(r', g) := create_rows (with_nodes r (put_node (nodes r) {| n_id := x; n_mdate := t; n_sig := sg |})) (x + 1)%N t rest in
+      (r', mentions x r || g)
+  end.
 Definition step (S : sys) (o : sop) : sys * Z * bool :=
   match o with
+  | CreateMany p x0 t sgs =>
+      let '(r, g) := create_rows (get p S) x0 t sgs in (set p r S, Z.of_nat (length sgs), g)
   | Create p x t sg =>
       let r := get p S in
       (set p (with_nodes r (put_node (nodes r) {| n_id := x; n_mdate := t; n_sig := sg |})) S, 1, mentions x r)
